@@ -140,6 +140,10 @@ type c12SpecSess struct {
 	consumed   bool
 	onetime    bool
 }
+type c12Probe struct {
+	inc, epoch int
+	uuid       string
+}
 type c12Hash struct {
 	bytes           []byte
 	salt, pw0, cost uint64
@@ -166,6 +170,12 @@ type c12World struct {
 	descs              []string
 	pending            string
 	retried            bool // some re-hash needed more than one CAS Save attempt
+	// the SessionUUID of the user an operation was about, read from the stored user document after EVERY operation
+	pu        uint64            // the user probed
+	probes    []string          // per operation: the user probed
+	uuids     []string          // per operation: its SessionUUID, interned (None / Some 0 = "" / Some k = k-th distinct)
+	uuidIdx   map[string]int    // interning
+	lastProbe map[uint64]c12Probe
 	accepted, rejected int
 }
 
@@ -175,7 +185,7 @@ func c12NewWorld(t *testing.T, rec *vRecorder, a *Authenticator, capN int) *c12W
 	c12CaseNo++
 	cachedHashes = NewRandReplKeyCache(capN)
 	w := &c12World{t: t, rec: rec, ctx: base.TestCtx(t), auth: a, auth5: c12Auth5(a), prefix: fmt.Sprintf("c%dx", c12CaseNo), capN: capN,
-		su: map[uint64]*c12SpecUser{}, ss: map[uint64]*c12SpecSess{}}
+		su: map[uint64]*c12SpecUser{}, ss: map[uint64]*c12SpecSess{}, pu: 1, uuidIdx: map[string]int{}, lastProbe: map[uint64]c12Probe{}}
 	w.sids = []string{fmt.Sprintf("neverissued%d", c12CaseNo)}
 	return w
 }
@@ -195,6 +205,51 @@ func (w *c12World) emit(op, out, desc string) {
 	w.ops = append(w.ops, op)
 	w.outs = append(w.outs, out)
 	w.descs = append(w.descs, desc+" => "+out)
+	w.probeEpoch()
+}
+
+// probeEpoch reads the SessionUUID of user w.pu from the stored user document (a plain read of the document: no
+// GetUser, which may rebuild and re-save the principal) -- the model's Epoch.epoch_of after the same operation -- and
+// runs the monitors of C12_session_uuid_never_empty / C12_session_uuid_fresh_per_incarnation on it: a stored user never
+// has the empty SessionUUID, and whenever the specification says the user is a new incarnation or has new credentials
+// (created, password set -- to anything, also "" on a user without a hash --, sessions invalidated, re-hashed) since it
+// was last looked at, its SessionUUID is one that no user had at any earlier point of the history.
+func (w *c12World) probeEpoch() {
+	u := w.pu
+	w.probes = append(w.probes, cqN(u))
+	var doc struct {
+		UUID string `json:"session_uuid"`
+	}
+	if _, err := w.auth.datastore.Get(w.ctx, w.auth.DocIDForUser(w.name(u)), &doc); err != nil {
+		if !base.IsDocNotFoundError(err) {
+			w.unexpected("Get(user)", err)
+		}
+		w.uuids = append(w.uuids, "None")
+		return
+	}
+	su := w.specUser(u)
+	lp, seenBefore := w.lastProbe[u]
+	_, known := w.uuidIdx[doc.UUID]
+	if doc.UUID == "" {
+		w.uuids = append(w.uuids, "(Some 0)")
+		w.fail("session_uuid_never_empty", "user-without-session-uuid",
+			fmt.Sprintf("the stored document of u%d has the EMPTY session UUID: every session issued to a user of that name while its UUID was empty (an earlier incarnation, or before a SetPassword that left it empty) authenticates as this user", u))
+	} else {
+		if !known {
+			w.uuidIdx[doc.UUID] = len(w.uuidIdx) + 1
+		}
+		w.uuids = append(w.uuids, fmt.Sprintf("(Some %d)", w.uuidIdx[doc.UUID]))
+	}
+	if (!seenBefore || lp.inc != su.inc || lp.epoch != su.epoch) && known && doc.UUID != "" {
+		if seenBefore && lp.inc == su.inc && lp.uuid == doc.UUID {
+			w.fail("session_uuid_fresh_per_incarnation", "session-uuid-not-rotated",
+				fmt.Sprintf("the credentials of u%d changed (password set / sessions invalidated) but its session UUID is still the one it had before: sessions issued before the change keep authenticating", u))
+		} else {
+			w.fail("session_uuid_fresh_per_incarnation", "session-uuid-reused",
+				fmt.Sprintf("u%d (incarnation %d, credential epoch %d) carries a session UUID that an earlier incarnation / another user had: sessions issued to that one authenticate as this user", u, su.inc, su.epoch))
+		}
+	}
+	w.lastProbe[u] = c12Probe{inc: su.inc, epoch: su.epoch, uuid: doc.UUID}
 }
 func (w *c12World) history() []string { return append([]string{}, w.descs...) }
 
@@ -251,7 +306,13 @@ func (w *c12World) doCreateUser(u, p, c uint64) {
 	w.salt++
 	op := fmt.Sprintf("CreateUser %d %d %d %d", u, p, w.salt, c)
 	desc := fmt.Sprintf("CreateUser(u%d,pw%d,cost%d)", u, p, c)
-	usr, err := w.authFor(c).NewUser(w.name(u), c12Pw(p), nil)
+	var usr User
+	var err error
+	if w.salt%2 == 0 { // what db.UpdatePrincipal calls (then SetPassword if the update carries one)
+		usr, err = w.authFor(c).NewUserNoChannels(w.name(u), c12Pw(p))
+	} else {
+		usr, err = w.authFor(c).NewUser(w.name(u), c12Pw(p), nil)
+	}
 	if err != nil {
 		if errors.Is(err, bcrypt.ErrPasswordTooLong) {
 			w.rec.Err("pw-too-long")
@@ -687,6 +748,9 @@ func (w *c12World) doLoginRehash(u, p uint64, inter [][]c12Op) {
 			w.unexpected("Save(rehash)", err)
 		}
 		lastMismatch = !wrote && !gone
+		if wrote {
+			w.specUser(u).epoch++ // SetPassword rotates the session UUID
+		}
 		w.emit(fmt.Sprintf("RehashSave %d %d None", a, w.salt), "ORehash "+cqBool(wrote), fmt.Sprintf("  rehash#%d: CAS Save attempt %d", a, attempt))
 		if !wrote {
 			w.rec.Err("rehash-cas-mismatch")
@@ -698,7 +762,6 @@ func (w *c12World) doLoginRehash(u, p uint64, inter [][]c12Op) {
 		w.rec.Err("rehash-written")
 		su := w.specUser(u)
 		overwrittenCost := su.pwCost
-		su.epoch++ // SetPassword rotates the session UUID
 		w.noteHash(u, p, 5)
 		// rehash_preserves_credentials on the implementation: the document just written must still verify the
 		// user's CURRENT password (the specification's), not a superseded one
@@ -882,6 +945,15 @@ func (w *c12World) apply(o c12Op) {
 	}
 	defer func() { w.pending = "" }()
 	switch o.kind {
+	case c12DeleteSession, c12AuthCookie, c12AuthOneTime, c12GetSession:
+		if s := w.ss[w.slots[o.slot]]; s != nil {
+			w.pu = s.user
+		}
+	case c12Advance:
+	default:
+		w.pu = o.u
+	}
+	switch o.kind {
 	case c12CreateUser:
 		w.doCreateUser(o.u, o.p, c12Cost(o.c))
 	case c12SetPassword:
@@ -917,7 +989,7 @@ func c12Run(t *testing.T, rec *vRecorder, a *Authenticator, stream, kind string,
 		w.apply(o)
 	}
 	// non-trivial: the history both accepted and rejected an authentication attempt
-	rec.Case(stream, kind, fmt.Sprintf("CRun %d %s %s", capN, cqList(w.ops), cqList(w.outs)),
+	rec.Case(stream, kind, fmt.Sprintf("CRunE %d %s %s %s %s", capN, cqList(w.ops), cqList(w.outs), cqList(w.probes), cqList(w.uuids)),
 		map[string]any{"cache_capacity": capN, "history": w.history()}, w.accepted > 0 && w.rejected > 0)
 	return w
 }
@@ -1063,6 +1135,14 @@ func TestVerifC12(t *testing.T) {
 		"rehash-nested-logins":      {cU(1, 1), lR(1, 1, []c12Op{lR(1, 1)}), aP(1, 1), lR(1, 1), aP(1, 5)},
 		"rehash-nonplain":           {cU(1, 6), lR(1, 7), aP(1, 6), aP(1, 7), aP(1, 1), cU(2, 3), lR(2, 1003), aP(2, 3), lR(2, 3), aP(2, 3), cU(3, 0), lR(3, 0), aP(3, 0)},
 		"refresh-then-stale":        {cU(1, 1), cS(1, 0, 1000, false), adv(450), sP(1, 5), aC(0), adv(600), aC(0)},
+		// users WITHOUT a password hash (allow_empty_password=true): every incarnation / credential epoch has its own,
+		// non-empty session UUID
+		"passwordless-delete-recreate":    {cU(1, 0), cS(1, 0, 1000, false), aC(0), dU(1), aC(0), cU(1, 0), aC(0), gS(0), aO(0), aP(1, 0), cS(1, 1, 1000, false), aC(1), aC(0)},
+		"passwordless-set-empty-password": {cU(1, 0), cS(1, 0, 1000, false), cS(1, 1, 1000, true), sP(1, 0), aC(0), aO(1), aP(1, 0), cS(1, 2, 1000, false), aC(2), sP(1, 1), aC(2), aP(1, 0), sP(1, 0), aP(1, 0), aP(1, 1), cS(1, 0, 1000, false), sP(1, 0), aC(0)},
+		"passwordless-disable-invalidate": {cU(1, 0), cS(1, 0, 1000, false), sD(1, true), aC(0), aP(1, 0), sD(1, false), aC(0), inv(1), aC(0), dU(1), cU(1, 1), aC(0), dU(1), cU(1, 0), aC(0), gS(0)},
+		"passwordless-two-users":          {cU(1, 0), cU(2, 0), cS(1, 0, 1000, false), cS(2, 1, 1000, true), dU(1), dU(2), cU(2, 0), cU(1, 0), aC(0), aO(1), aP(1, 0), aP(2, 1)},
+		"passwordless-onetime-recreate":   {cU(1, 0), cS(1, 0, 1000, true), dU(1), cU(1, 0), aO(0), aC(0), cS(1, 1, 1000, true), aO(1), aO(1)},
+		"passwordless-rehash":             {cU(1, 0), cS(1, 0, 1000, false), lR(1, 0), aC(0), sP(1, 1), lR(1, 1, []c12Op{sP(1, 0)}), aC(0), aP(1, 0), aP(1, 1)},
 	}
 	var names []string
 	for k := range corpus {
@@ -1111,9 +1191,9 @@ func TestVerifC12(t *testing.T) {
 
 	// ---------- (b) bounded-exhaustive: every sequence over the alphabet, between a fixed prefix and a probe suffix ----------
 	alphabet := []c12Op{sP(1, 5), sD(1, true), sD(1, false), inv(1), dU(1), cU(1, 1), cS(1, 1, 1000, false), cS(1, 1, 1000, true),
-		dS(0), adv(150), adv(900), aP(1, 1), aC(0), aO(0)}
-	probes := []c12Op{aP(1, 1), aP(1, 5), gS(0), aC(0), aC(1), aC(0)}
-	prefixes := [][]c12Op{{cU(1, 1), cS(1, 0, 1000, false)}, {cU(1, 1), cS(1, 0, 1000, true)}}
+		dS(0), adv(150), adv(900), aP(1, 1), aC(0), aO(0), cU(1, 0), sP(1, 0)}
+	probes := []c12Op{aP(1, 1), aP(1, 5), aP(1, 0), gS(0), aC(0), aC(1), aC(0)}
+	prefixes := [][]c12Op{{cU(1, 1), cS(1, 0, 1000, false)}, {cU(1, 1), cS(1, 0, 1000, true)}, {cU(1, 0), cS(1, 0, 1000, false)}}
 	maxLen := 2
 	if vThorough() {
 		maxLen = 3
@@ -1137,10 +1217,14 @@ func TestVerifC12(t *testing.T) {
 		})
 	}
 	rec.Extra("exhaustive", true)
-	rec.Extra("exhaustive_scope", fmt.Sprintf("2 prefixes x all sequences of length <= %d over %d operations (1 user, 2 passwords, 2 session slots) + 6 probes: %d histories", maxLen, len(alphabet), nEx))
+	rec.Extra("exhaustive_scope", fmt.Sprintf("3 prefixes (regular / one-time first session / passwordless user) x all sequences of length <= %d over %d operations (1 user, 3 passwords incl. the empty one, 2 session slots) + 7 probes: %d histories", maxLen, len(alphabet), nEx))
 
 	// ---------- (c) random histories ----------
+	passwordless := false // this history is mostly about users without a password (allow_empty_password)
 	pickPw := func(adversarial bool) uint64 {
+		if passwordless && rnd.Chance(65) {
+			return 0
+		}
 		if adversarial && rnd.Chance(35) {
 			return c12AllPw[rnd.Intn(len(c12AllPw))]
 		}
@@ -1149,6 +1233,7 @@ func TestVerifC12(t *testing.T) {
 	ttls := []uint64{1000, 1000, 5000}
 	dts := []uint64{70, 130, 450, 1100}
 	gen := func(adversarial bool) []c12Op {
+		passwordless = rnd.Chance(25)
 		n := 6 + rnd.Intn(10)
 		nu := uint64(2)
 		if adversarial {
@@ -1256,6 +1341,7 @@ func TestVerifC12(t *testing.T) {
 
 	// ---------- (c') REST histories through rest.NewRestTester (verif_c12_rest_test.go) ----------
 	cachedHashes = NewRandReplKeyCache(bigCap)
+	c12SessionExpiryStream(t, rec, rnd, a, rawStore)
 	if VC12RestStream != nil {
 		VC12RestStream(t, &VC12Rec{rec: rec, rnd: rnd})
 	} else {
